@@ -22,9 +22,43 @@ MATCH = {'decimal': 'Number', 'string': 'String', 'bool': 'Bool', 'integer': 'Nu
 
 
 def harness(it, px, params):
-    fam = ['integer', 'matrix', 'from'][pick_config(px, 'fam', 3)]
+    fam = ['integer', 'matrix', 'from', 'integer-twice'][pick_config(px, 'fam', 4)]
     px.notes.append(fam)
     rec = {'family': fam}
+    if fam == 'integer-twice':
+        # integer() is a function of the number alone: a call on another number just before must not influence it.
+        # First call: the same digits at scale 0 (succeeds when in range); second call: those digits at scale s1.
+        s1 = [1, 2, 5][pick_config(px, 'scale2', 3)]
+        p = 10 ** s1
+        m = px.int('m')
+        px.add(z3.And(m >= -MAX96, m <= MAX96))
+        px.get_model()
+        # (the first number is concrete: two bv2int ties on related symbolic integers make z3 give up)
+        first = [150, 7, -2000][pick_config(px, 'first', 3)]
+        api.guarded(it, it.call, 'value::Value::integer', [api.V_num(first, 0)])
+        o = api.as_result(api.guarded(it, it.call, 'value::Value::integer', [api.V_num(m, s1)]))
+        want_ok = z3.And(m % p == 0, m / p >= -(1 << 63), m / p < (1 << 63))
+        n = m / p
+        rec['outcome'] = o.kind
+        px.cover('integer-twice')
+        bad = None
+        if o.kind == 'ok':
+            r = o.value
+            R = z3.BV2Int(r, True) if is_sym(r) else z3.IntVal(r)
+            ok, mod = px.check(z3.And(want_ok, R == n))
+            if not ok:
+                bad = ('C17|integer-after-integer|wrong-ok|scale%d' % s1, 'integer() of m/10^%d right after integer() of m returns Ok with a different value' % s1, mod)
+        elif o.kind == 'err':
+            ok, mod = px.check(z3.Not(want_ok))
+            if not ok:
+                bad = ('C17|integer-after-integer|rejects-integral|scale%d' % s1, 'integer() rejects an integral number right after another call', mod)
+        else:
+            bad = ('C17|integer-after-integer|%s' % o.kind, 'integer() %s: %s' % (o.kind, o.detail), px.get_model())
+        mm = (bad[2] if bad else None) or px.get_model()
+        rec['witness'] = {'m': str(mm.eval(m, model_completion=True).as_long()), 's': s1, 'first': str(first)}
+        if bad:
+            px.finding({'key': bad[0], 'desc': bad[1], 'kind': 'integer2', 'witness': rec['witness']})
+        return rec
     if fam == 'integer':
         scales = params['scales']
         s = scales[pick_config(px, 'scale', len(scales))]
@@ -170,6 +204,20 @@ def harness(it, px, params):
 
 def native_check(ctx, f):
     """-> (scenario, confirmed, observations)"""
+    if f['kind'] == 'integer2':
+        w = f['witness']
+        sc = [{'op': 'accessor', 'which': 'integer', 'value': {'t': 'num', 'm': w['first'], 's': 0}},
+              {'op': 'accessor', 'which': 'integer', 'value': {'t': 'num', 'm': w['m'], 's': w['s']}}]
+        od = ctx.native(sc, 'dev')[-1]
+        m, s_ = int(w['m']), w['s']
+        integral = m % (10 ** s_) == 0 and -(1 << 63) <= m // (10 ** s_) < (1 << 63)
+        if od.get('kind') == 'ok':
+            confirmed = (not integral) or int(od['value']) != m // (10 ** s_)
+        elif od.get('kind') == 'err':
+            confirmed = integral
+        else:
+            confirmed = True
+        return sc, confirmed, od
     if f['kind'] == 'integer':
         w = f['witness']
         sc = [{'op': 'accessor', 'which': 'integer', 'value': {'t': 'num', 'm': w['m'], 's': w['s']}}]
@@ -276,7 +324,7 @@ def run(ctx):
     covers = set()
     for r in recs:
         covers.update(r.get('covers', []))
-    for need in ['integer-ok-scale%d' % s for s in scales if s <= 18] + ['integer-err', 'accessor-err'] + ['accessor-ok-' + a for a in ACCESSORS if a != 'integer'] + ['from-' + k for k in ('str', 'string', 'bool', 'decimal', 'list', 'f64-whole', 'f32-whole')]:
+    for need in ['integer-ok-scale%d' % s for s in scales if s <= 18] + ['integer-err', 'accessor-err'] + ['accessor-ok-' + a for a in ACCESSORS if a != 'integer'] + ['from-' + k for k in ('str', 'string', 'bool', 'decimal', 'list', 'f64-whole', 'f32-whole')] + ['integer-twice']:
         if need not in covers:
             inconclusive.append('vacuity: cover %s not reached' % need)
     if not kres.get('ok'):
